@@ -4,7 +4,7 @@
 From ClapModel Require Import Base.Bytes Base.Machine Base.Utf8 Lex.OsStrExtModel.
 From ClapModel Require Import Parse.Cmd Parse.Build Parse.Valid Parse.Matcher Parse.Errors Parse.Validator Parse.Parser.
 From ClapModel Require Import ParseProofs.Actions ParseProofs.Unparse ParseProofs.UnparseProofs ParseProofs.UnparseTop
-                              ParseProofs.UnparseSub ParseProofs.UnparseTree.
+                              ParseProofs.UnparseSub ParseProofs.UnparseTree ParseProofs.UnparseIdx ParseProofs.UnparseIdxTop.
 From Coq Require Import ZArith List Bool.
 From RecordUpdate Require Import RecordSet.
 Import RecordSetNotations.
@@ -111,5 +111,18 @@ Module UnparseEx.
     raw_of [111] m = Some [[[65]]] /\ raw_of [118] m = Some [[[49]]] /\
     raw_of [120] sm = Some [[s_true]] /\ raw_of [110] sm = Some [[[86]]] /\ raw_of [102] sm = Some [[[70]]].
   Proof. eexists. eexists. split; [vm_compute; reflexivity|]. repeat split. Qed.
-End UnparseEx.
 
+  (** indices of the one-level example: --qu F -vvoAB --opt=== --mu A B,C -vm A -s= R S --yy -v T *)
+  Definition idx_after (toks : list bytes) (i : id) : option (option (list N)) :=
+    match get_matches_with 3 c toks ps_new with ROk st => Some (idx_of i (mt st)) | _ => None end.
+  Example ex_idx :
+    denote_idx c [111] its = Some [6; 8] /\ idx_after (render its) [111] = Some (Some [6; 8]) /\
+    denote_idx c [109] its = Some [10; 11; 12; 15] /\ idx_after (render its) [109] = Some (Some [10; 11; 12; 15]) /\
+    denote_idx c [114] its = Some [18; 19; 23] /\ idx_after (render its) [114] = Some (Some [18; 19; 23]) /\
+    denote_idx c [118] its = Some [22] /\ idx_after (render its) [118] = Some (Some [22]).
+  Proof. vm_compute. repeat split; reflexivity. Qed.
+  Example ex_events : events c its =
+    [([113], [1]); ([102], [2]); ([118], [3]); ([118], [4]); ([111], [6]); ([111], [8]); ([109], [10; 11; 12]);
+     ([118], [13]); ([109], [15]); ([115], [17]); ([114], [18; 19]); ([121], [21]); ([118], [22]); ([114], [23])].
+  Proof. vm_compute. reflexivity. Qed.
+End UnparseEx.
